@@ -208,6 +208,7 @@ type world struct {
 	// runs of consecutive retryable RPC timeouts (no wall-clock cost): on the data request at one
 	// offset (master or CDN) and on the first hash requests; retried by reader.next / verifier.next
 	// chunk-once mode: one scripted event per CDN request (s|r|t|m), then serve
+	parallel         bool
 	evScript         string
 	masterServesFile bool
 	dataFaultOff     int64
@@ -358,6 +359,11 @@ func (c cdnConn) UploadGetCDNFile(ctx context.Context, r *tg.UploadGetCDNFileReq
 		return nil, tgerr.New(400, "FILE_TOKEN_INVALID")
 	}
 	if !bytes.Equal(r.FileToken, w.token) {
+		if w.parallel {
+			// a concurrent worker may still hold the redirect it read before the refresh: the CDN
+			// answers as it does for any outdated token
+			return nil, tgerr.New(400, "FILE_TOKEN_INVALID")
+		}
 		w.badCDNReq = "stale file token"
 	}
 	if w.cdnReqs == w.reuploadAt {
@@ -380,12 +386,14 @@ type vcase struct {
 	ps     int
 	wsizes []int
 	w      *world
-	tamper string
-	faults string
-	seed   uint64
+	tamper  string
+	faults  string
+	threads int // 0 = Stream, else Parallel
+	seed    uint64
 }
 
 type vresult struct {
+	overlap bool
 	data   []byte
 	err    error
 	panicv any
@@ -409,10 +417,43 @@ func runDownload(v *vcase) (res vresult) {
 	if v.mode != "A" {
 		b = b.WithVerify(true)
 	}
+	if v.threads > 0 {
+		v.w.parallel = true
+		out := &atSink{}
+		_, res.err = b.WithThreads(v.threads).Parallel(context.Background(), out)
+		res.data, res.overlap = out.b, out.overlap
+		return res
+	}
 	out := &sink{}
 	_, res.err = b.Stream(context.Background(), out)
 	res.data = out.b
 	return res
+}
+
+// atSink assembles WriteAt calls and notices bytes written twice.
+type atSink struct {
+	mu      sync.Mutex
+	b       []byte
+	written []bool
+	overlap bool
+}
+
+func (s *atSink) WriteAt(p []byte, off int64) (int, error) {
+	s.mu.Lock()
+	defer s.mu.Unlock()
+	end := int(off) + len(p)
+	for len(s.b) < end {
+		s.b = append(s.b, 0)
+		s.written = append(s.written, false)
+	}
+	for i := range p {
+		if s.written[int(off)+i] {
+			s.overlap = true
+		}
+		s.written[int(off)+i] = true
+	}
+	copy(s.b[off:], p)
+	return len(p), nil
 }
 
 func errTag(err error) string {
@@ -661,6 +702,9 @@ func genCase(r *hc.RNG, thorough bool) *vcase {
 		}
 		w.tokenInvalidAt, w.reuploadAt = 0, 0
 	}
+	if r.Chance(35) {
+		v.threads = r.Range(2, 4)
+	}
 	v.faults = fmt.Sprintf("%d@%d/%d", w.dataFaults, w.dataFaultOff, w.hashFaults)
 	v.w = w
 	return v
@@ -878,7 +922,13 @@ func run(c *hc.Ctx) error {
 			quirk += "/" + strconv.Itoa(w.honestLimit)
 		}
 		line := fmt.Sprintf("dl %s %d %d %s %s %s %s %s %s", v.mode, v.ps, w.batch, joinInts(v.wsizes), hc.Hex(w.key), hc.Hex(w.iv), quirk, hc.Hex(w.file), hc.Hex(w.image))
-		sig := fmt.Sprintf("dl %s ps=%d batch=%d wins=%s quirk=%s tamper=%s size=%d seed=%d events=%d/%d timeouts=%s", v.mode, v.ps, w.batch, joinInts(v.wsizes), quirk, v.tamper, len(w.file), v.seed, w.tokenInvalidAt, w.reuploadAt, v.faults)
+		sig := fmt.Sprintf("dl %s ps=%d batch=%d wins=%s quirk=%s tamper=%s size=%d seed=%d events=%d/%d timeouts=%s threads=%d", v.mode, v.ps, w.batch, joinInts(v.wsizes), quirk, v.tamper, len(w.file), v.seed, w.tokenInvalidAt, w.reuploadAt, v.faults, v.threads)
+		if v.threads > 0 {
+			c.Count("dl.parallel")
+		}
+		if res.overlap {
+			c.Fail("verified-download-duplicate-bytes", sig, "two WriteAt ranges overlap")
+		}
 		if v.faults != "0@0/0" {
 			c.Count("dl.timeout-runs")
 		}
@@ -944,10 +994,14 @@ func run(c *hc.Ctx) error {
 			// control events change only how often a range is requested, never the outcome; the model has no
 			// notion of tokens, so for these cases only the outcome is compared
 		}
+		if v.threads > 0 {
+			// Parallel: which worker's error surfaces first is up to the scheduler — compare ok/err only
+			impl = "par:" + impl
+		}
 		add(line, impl)
 	}
 	c.Res.Exhaustive = true
-	c.Res.Rule = fmt.Sprintf("request plan: (offset, limit) pairs on the 4 KiB grid up to %d/%d (quick tier thins out limits > 128 KiB; thorough enumerates all, exhaustive) plus off-grid/negative arguments; decrypt: random keys/IVs (counter bytes near 2^32), offsets incl. offset/16 ≥ 2^32; downloads: files of 1..6 hash windows (4–16 KiB, uniform or uneven, last window short), part sizes aligned and unaligned to the windows, served honestly or corrupted / truncated at and off window boundaries / one answer extended or shortened / windows reordered / garbage appended, with FILE_TOKEN_INVALID and reupload-needed events and runs of 1..64 retryable timeouts on one part or on the hash requests, in three modes (CDN inline verification, CDN + verifier queue, master + verifier queue); non-trivial = tampered or more than one part; distinct = distinct case parameters", maxOff, maxLim)
+	c.Res.Rule = fmt.Sprintf("request plan: (offset, limit) pairs on the 4 KiB grid up to %d/%d (quick tier thins out limits > 128 KiB; thorough enumerates all, exhaustive) plus off-grid/negative arguments; decrypt: random keys/IVs (counter bytes near 2^32), offsets incl. offset/16 ≥ 2^32; downloads: files of 1..6 hash windows (4–16 KiB, uniform or uneven, last window short), part sizes aligned and unaligned to the windows, served honestly or corrupted / truncated at and off window boundaries / one answer extended or shortened / windows reordered / garbage appended, with FILE_TOKEN_INVALID and reupload-needed events and runs of 1..64 retryable timeouts on one part or on the hash requests, in three modes (CDN inline verification, CDN + verifier queue, master + verifier queue), Stream and Parallel (2..4 threads); non-trivial = tampered or more than one part; distinct = distinct case parameters", maxOff, maxLim)
 	c.PartialNote("unforgeability / collision resistance of SHA-256 is not modelled: the theorems say that what is delivered hashed to the master's values")
 	c.PartialNote("token refresh / reupload / DC switch state machine of cdn.Chunk is exercised (outcome compared) but not modelled; parallel CDN downloads and the verified-window cache (which only saves requests) are not modelled")
 
@@ -956,6 +1010,12 @@ func run(c *hc.Ctx) error {
 		return err
 	}
 	for i, o := range outs {
+		if strings.HasPrefix(impls[i], "par:") {
+			impls[i] = strings.TrimPrefix(impls[i], "par:")
+			if strings.HasPrefix(impls[i], "err ") && strings.HasPrefix(o, "err ") {
+				o = impls[i]
+			}
+		}
 		if c.Compare(clip(lines[i]), impls[i], o) {
 			c.Res.TracesValidated++
 		}
